@@ -116,6 +116,10 @@ def main():
             print("seedkeep: WARNING analyser panic on this tree:", l[:200])
             reports.append("ANALYSER-PANIC " + l[:250].replace(t + "/", ""))
             continue
+        if m and m.group(1) == "BROKEN-CHECK":
+            # a vacuity floor firing is not a report of the change
+            reports.append("(floor only) " + l[:250].replace(t + "/", ""))
+            continue
         if m:
             if m.group(2) not in caught:
                 caught.append(m.group(2))
